@@ -17,8 +17,9 @@ Rec == ndJsonDeserialize(IOEnv.TRACE)
 
 VARIABLES l,     \* next line of the trace
           meta,  \* names and probability tokens of the current run
-          acc    \* micro-unit bounds of the probabilities yielded by the current inner iterator
-tvars == <<vars, l, meta, acc>>
+          acc,   \* micro-unit bounds of the probabilities yielded by the current inner iterator
+          g2     \* the game of the second pass (internal iteration)
+tvars == <<vars, l, meta, acc, g2>>
 
 IsEvent(e) == l <= Len(Rec) /\ Rec[l].e = e /\ l' = l + 1
 
@@ -30,26 +31,28 @@ TraceInit == /\ l = 2
              /\ Start(GameOf(Rec[1]))
              /\ meta = MetaOf(Rec[1])
              /\ acc = <<0, 0>>
+             /\ g2 = [pos |-> <<>>, ns |-> 0, names |-> <<>>]
 
 Reset == /\ IsEvent("reset")
          /\ game' = GameOf(Rec[l]) /\ opos' = 0 /\ singles' = 1..Rec[l].ns /\ inner' = NoInner
          /\ meta' = MetaOf(Rec[l])
          /\ acc' = <<0, 0>>
+         /\ UNCHANGED g2
 
 OLen == /\ IsEvent("olen")
         /\ Rec[l].v = OuterAdvertised
-        /\ UNCHANGED <<vars, meta, acc>>
+        /\ UNCHANGED <<vars, meta, acc, g2>>
 
 ONext == /\ IsEvent("onext")
          /\ \/ Rec[l].kind = "multi" /\ OuterNextMulti /\ meta.names[opos + 1] = Rec[l].name
             \/ Rec[l].kind = "single" /\ OuterNextSingle(Rec[l].s)
             \/ Rec[l].kind = "none" /\ OuterNextNone
          /\ acc' = <<0, 0>>
-         /\ UNCHANGED meta
+         /\ UNCHANGED <<meta, g2>>
 
 ILen == /\ IsEvent("ilen")
         /\ Rec[l].v = InnerAdvertised
-        /\ UNCHANGED <<vars, meta, acc>>
+        /\ UNCHANGED <<vars, meta, acc, g2>>
 
 INext == /\ IsEvent("inext")
          /\ \/ /\ Rec[l].kind = "some"
@@ -67,14 +70,38 @@ INext == /\ IsEvent("inext")
                /\ acc[1] <= 1000000 /\ 1000000 <= acc[2]
                /\ Rec[l].dev >= -100 /\ Rec[l].dev <= 100
                /\ acc' = acc
-         /\ UNCHANGED meta
+         /\ UNCHANGED <<meta, g2>>
 
 \* the round trip from_named(as_named(s)) = s, observed by the harness entry by entry
 RoundTrip == /\ IsEvent("roundtrip")
              /\ Rec[l].ok
-             /\ UNCHANGED <<vars, meta, acc>>
+             /\ UNCHANGED <<vars, meta, acc, g2>>
 
-TraceNext == Reset \/ OLen \/ ONext \/ ILen \/ INext \/ RoundTrip
+\* ---- internal iteration (second pass over fresh iterators): whatever adaptor consumes an iterator - count, fold,
+\* last, nth followed by collect - the items are those next() yields: the positive actions of the infoset in order
+\* (the one action of a single-action infoset), and every infoset of the player once
+Reset2 == /\ IsEvent("reset2")
+          /\ g2' = [pos |-> Rec[l].pos, ns |-> Rec[l].ns, names |-> Rec[l].names]
+          /\ UNCHANGED <<vars, meta, acc>>
+Listing(i) == IF i = 0 THEN <<1>>
+              ELSE SelectSeq([k \in 1..Len(g2.pos[i]) |-> k], LAMBDA k : g2.pos[i][k])
+ConsumedOK(r) ==
+  LET ls == Listing(r.i)
+  IN /\ r.i \in 0..Len(g2.pos)
+     /\ (r.via = "count" => r.n = Len(ls))
+     /\ (r.via = "fold" => r.js = ls)
+     /\ (r.via = "last" => r.j = (IF ls = <<>> THEN 0 ELSE ls[Len(ls)]))
+     /\ (r.via = "nth" => /\ r.j = (IF ls = <<>> THEN 0 ELSE ls[1])
+                           /\ r.js = (IF ls = <<>> THEN <<>> ELSE Tail(ls)))
+Consumed == /\ IsEvent("consumed") /\ (ConsumedOK(Rec[l]) = TRUE)
+            /\ UNCHANGED <<vars, meta, acc, g2>>
+OConsumed == /\ IsEvent("oconsumed")
+             /\ Rec[l].n = Len(g2.pos) + g2.ns
+             /\ Rec[l].multi = g2.names
+             /\ Rec[l].singles = g2.ns
+             /\ UNCHANGED <<vars, meta, acc, g2>>
+
+TraceNext == Reset \/ OLen \/ ONext \/ ILen \/ INext \/ RoundTrip \/ Reset2 \/ Consumed \/ OConsumed
 TraceSpec == TraceInit /\ [][TraceNext]_tvars
 
 \* acceptance: every line was consumed; on rejection print the first line that no action explains
